@@ -75,9 +75,32 @@ package httpgen
 //@   ensures proto_error: !errorsAs(err, *sebufhttp.ValidationError) && !errorsAs(err, *sebufhttp.Error) && isType(err, proto.Message) ==> r == err
 //@   ensures plain_error: !errorsAs(err, *sebufhttp.ValidationError) && !errorsAs(err, *sebufhttp.Error) && !isType(err, proto.Message) ==> isType(r, *sebufhttp.Error) && asType(r, *sebufhttp.Error).Message == errmsg(err)
 
+// Response writers (C10): body codec and Content-Type follow the request's content type by one table.
 //@ emitted func writeProtoMessageResponse(w nethttp.ResponseWriter, r *nethttp.Request, msg proto.Message, statusCode int, fallbackMsg string)
+//@   let ct = filterFlags(ite(r.Header.Get("Content-Type") == "", "application/json", r.Header.Get("Content-Type")))
+//@   ensures one_encoder: (count("protojson.Marshal") - old(count("protojson.Marshal"))) + (count("proto.Marshal") - old(count("proto.Marshal"))) == 1
+//@   ensures status_once: (count("WriteHeader") - old(count("WriteHeader"))) + (count("Error") - old(count("Error"))) == 1
+//@   at-call proto.Marshal requires binary_types: ct == "application/octet-stream" || ct == "application/x-protobuf"
+//@   at-call protojson.Marshal requires json_otherwise: ct != "application/octet-stream" && ct != "application/x-protobuf"
+//@   at-call Set:Content-Type requires matches_codec: arg1 == ite(ct == "application/octet-stream" || ct == "application/x-protobuf", "application/x-protobuf", "application/json")
+//@   at-call WriteHeader requires given_status: arg0 == statusCode
+//@   at-call WriteHeader requires after_content_type: count("Set:Content-Type") > old(count("Set:Content-Type"))
+//@   at-call Error requires given_status: arg2 == statusCode
+//@   at-call Write requires after_header: count("WriteHeader") > old(count("WriteHeader"))
+
 //@ emitted func writeResponseBody(w nethttp.ResponseWriter, r *nethttp.Request, msg proto.Message)
+//@   let ct = filterFlags(ite(r.Header.Get("Content-Type") == "", "application/json", r.Header.Get("Content-Type")))
+//@   ensures no_status: count("WriteHeader") == old(count("WriteHeader"))
+//@   at-call proto.Marshal requires binary_types: ct == "application/octet-stream" || ct == "application/x-protobuf"
+//@   at-call protojson.Marshal requires json_otherwise: ct != "application/octet-stream" && ct != "application/x-protobuf"
+//@   at-call Set:Content-Type requires matches_codec: arg1 == ite(ct == "application/octet-stream" || ct == "application/x-protobuf", "application/x-protobuf", "application/json")
+
 //@ emitted func marshalResponse(r *nethttp.Request, response any) (b []byte, err error)
+//@   let ct = filterFlags(ite(r.Header.Get("Content-Type") == "", "application/json", r.Header.Get("Content-Type")))
+//@   at-call proto.Marshal requires binary_types: ct == "application/octet-stream" || ct == "application/x-protobuf"
+//@   at-call protojson.Marshal requires json_otherwise: ct != "application/octet-stream" && ct != "application/x-protobuf"
+//@   at-call protojson.Marshal requires no_custom_codec: !isType(response, json.Marshaler)
+//@   at-call MarshalJSON requires json_otherwise: ct != "application/octet-stream" && ct != "application/x-protobuf"
 
 // Handler adapter (C10): what reaches the error path for each kind of handler error.
 //@ emitted func genericHandler_closure1(serve any, errorHandler any)
@@ -91,6 +114,7 @@ package httpgen
 //@ emitted func ValidateMessage(msg proto.Message) (err error)
 //@ emitted func convertProtovalidateError(err error) (r *sebufhttp.ValidationError)
 //@   ensures r != nil
+//@   loop 2 invariant i >= 1
 //@ emitted func bindPathParams(r *nethttp.Request, msg proto.Message, params []PathParamConfig) (verr *sebufhttp.ValidationError)
 //@ emitted func bindQueryParams(r *nethttp.Request, msg proto.Message, params []QueryParamConfig) (verr *sebufhttp.ValidationError)
 //@ emitted func bindDataBasedOnContentType(r *nethttp.Request, toBind any) (err error)
